@@ -77,8 +77,8 @@ MODES_THR = ["select-thr", "poll-thr", "epoll-thr"]
 ARENAS = [1024, 4096, 32768]
 
 
-def mk_head(ver=b"HTTP/1.1", url=b"/chat", pad=0, method=b"GET"):
-    h = method + b" " + url + b" " + ver + b"\r\nHost: x\r\nConnection: Upgrade\r\nUpgrade: test\r\n"
+def mk_head(ver=b"HTTP/1.1", url=b"/chat", pad=0, method=b"GET", conn=b"Upgrade", extra=b""):
+    h = method + b" " + url + b" " + ver + b"\r\nHost: x\r\nConnection: " + conn + b"\r\nUpgrade: test\r\n" + extra
     if pad:
         h += b"X-Pad: " + b"p" * pad + b"\r\n"
     return h + b"\r\n"
@@ -178,6 +178,144 @@ def gen_split_cases(ctx, tier):
         t, m = combos[j % len(combos)]
         pos = sorted(rng.sample(range(1, len(s2)), rng.randint(0, 2)))
         cases.append(split_case("cap-%d-%d" % (j, pad), m, 1024, t, cuts(s2, pos), 1, bool(j % 2), b"tail!", rng, hints=True))
+    return cases
+
+
+# ---- everything an application may legally do to an upgrade response object -------------------------------
+# response flags, canonical numbering of the line protocol: strict=1 server=2 insanity=4 keepalive-hdr=8 head-only=16
+FLAGS_OK = [0, 8, 16, 24]            # legal for a 101 (no effect on the head)
+FLAGS_REFUSED = [1, 2, 3, 9, 18]     # HTTP/1.0 flags: a 1xx status is refused
+H = lambda n, v: "h=%s:%s" % (hx(n), hx(v))
+D = lambda n, v: "d=%s:%s" % (hx(n), hx(v))
+F = lambda n, v: "f=%s:%s" % (hx(n), hx(v))
+C = b"Connection"
+# (label, ops, accepted?)  — "Connection" edits: several values / tokens, any case, any order
+CONN_EDITS = [
+    ("plain", [], True),
+    ("add-token", [H(C, b"X-Foo")], True),
+    ("add-two", [H(C, b"X-A, X-B"), H(b"connection", b"X-C")], True),
+    ("upgrade-last", [D(C, b"Upgrade"), H(C, b"foo, UPGRADE")], True),
+    ("upgrade-first", [D(C, b"upgrade"), H(b"CONNECTION", b"upGrade, foo")], True),
+    ("upgrade-middle", [D(C, b"Upgrade"), H(C, b"X-A, upgrade, X-B"), H(C, b"X-C")], True),
+    ("upgrade-twice", [H(C, b"Upgrade")], True),
+    ("ka-token-only", [H(C, b"Keep-Alive")], True),           # the call is refused, the object is unchanged
+    ("ka-token-mixed", [H(C, b"keep-alive, X-A")], True),     # keep-alive token dropped by the API
+    ("close-token", [H(C, b"close")], True),                  # refused for an upgrade response object
+    ("close-mixed", [H(C, b"X-A, close")], True),
+    ("ws-commas", [H(C, b"a ,b,,  c")], True),
+    ("del-other", [H(C, b"X-A, X-B"), D(C, b"x-a")], True),
+    ("del-readd", [D(C, b"Upgrade"), H(C, b"Upgrade")], True),
+    ("prefix-elem", [D(C, b"Upgrade"), H(C, b"up, upgrade")], True),
+    ("no-token", [D(C, b"Upgrade"), H(C, b"X-Hop")], False),
+    ("near-token", [D(C, b"Upgrade"), H(C, b"upgradex, xupgrade")], False),
+    ("no-header", [D(C, b"Upgrade")], False),
+]
+# other headers (label, ops)
+OTHER_HDRS = [
+    ("none", []),
+    ("upgrade-protos", [H(b"Upgrade", b"websocket, h2c, TLS/1.0")]),
+    ("ws-accept", [H(b"Upgrade", b"websocket"), H(b"Sec-WebSocket-Accept", b"s3pPLMBiTxaQ9kYGzzhZRbK+xOo=")]),
+    ("keep-alive-hdr", [H(b"Keep-Alive", b"timeout=5, max=10")]),
+    ("app-date", [H(b"Date", b"Thu, 01 Jan 1970 00:00:00 GMT"), H(b"X-After", b"1")]),
+    ("app-date-twice", [H(b"X-Before", b"0"), H(b"date", b"Mon, 02 Jan 2006 15:04:05 GMT"), H(b"Date", b"Thu, 01 Jan 1970 00:00:00 GMT")]),
+    ("content-length", ["o=16", H(b"Content-Length", b"5"), H(b"X-After", b"cl")]),   # head-only flag lets the app store it
+    ("content-length-refused", [H(b"Content-Length", b"5")]),
+    ("transfer-encoding", [H(b"Transfer-Encoding", b"chunked"), H(b"X-After", b"te")]),
+    ("footer", [F(b"X-Foot", b"never-sent"), H(b"X-Head", b"sent")]),
+    ("del-plain", [H(b"X-One", b"1"), H(b"X-Two", b"2"), D(b"X-One", b"1")]),
+    ("dup-names", [H(b"Set-Cookie", b"a=1"), H(b"set-cookie", b"b=2"), H(b"Set-Cookie", b"a=1")]),
+    ("odd-values", [H(b"X-Odd", b"  lead, trail  \t"), H(b"X-Colon", b"a: b: c"), H(b"X-Hi", bytes([0xe4, 0xf6, 0xfc]))]),
+    ("opts-late", [H(b"X-One", b"1"), "o=8", H(b"X-Two", b"2"), "o=0"]),
+]
+# request variations: (label, kwargs for mk_head, must the reply be queued at the first call?, bytes after the head)
+REQ_VARS = [
+    ("plain", {}, None),
+    ("ka-upgrade", {"conn": b"keep-alive, Upgrade"}, None),
+    ("close-upgrade", {"conn": b"close, upgrade"}, None),
+    ("upgrade-close", {"conn": b"Upgrade, Close"}, None),
+    ("http12", {"ver": b"HTTP/1.2"}, None),
+    ("expect-nobody", {"extra": b"Expect: 100-continue\r\n"}, None),
+    # a request that announces a body: the application answers at the first call, the announced body bytes are
+    # "bytes beyond the request head" and must reach the upgrade handler (no 100 Continue, nothing consumed)
+    ("expect-body-early", {"method": b"POST", "extra": b"Expect: 100-continue\r\nContent-Length: 12\r\n"}, True),
+    ("body-early", {"method": b"PUT", "extra": b"Content-Length: 40\r\n"}, True),
+]
+
+
+def hdr_case(name, mode, mem, timing, flags, flags_late, cedit, other, reqv, parts_at, early, nodate, rng):
+    """one decorated upgrade response; `parts_at` = split positions of head+following"""
+    clabel, cops, ok = cedit
+    olabel, oops = other
+    rlabel, rkw, force_early = reqv
+    ok = ok and flags in FLAGS_OK
+    if force_early:
+        early = True
+    kind = "upgrade-hc" if timing == "inside" else "upgrade"
+    resp = "resp 1 kind=%s code=101" % kind
+    if flags and not flags_late:
+        resp += " flags=%d" % flags
+    # MHD_set_response_options replaces all flags: options calls inside a decoration keep the case's flags
+    ops = [("o=%d" % (int(o[2:]) | flags)) if o.startswith("o=") else o for o in list(cops) + list(oops)]
+    if flags and flags_late:
+        ops.insert(rng.randint(0, len(ops)), "o=%d" % flags)
+    resp += "".join(" " + o for o in ops[:16])
+    L = ["case " + name, "cfg mode=%s upgrade=1 mem=%d%s" % (mode, mem, " nodate=1" if nodate else ""), "start",
+         "resp 0 kind=copy code=200 size=5", resp]
+    L.append("beh 0 0 " + ("f=r1/r0" if early else "f=c l=r1/r0"))
+    head = mk_head(**rkw)
+    stream = head + FOLLOW
+    L += ["arrive 0 1", "round"]
+    # a refused upgrade is answered with an ordinary reply, after which the connection may be closed: the whole stream is
+    # then delivered before the head is complete (what is unread at close time decides between FIN and RST: timing)
+    lim = len(stream) if ok else len(head)
+    for part in cuts(stream, sorted({p % lim for p in parts_at if p % lim})):
+        L += ["send 0 " + hx(part), "round"]
+    L.append("rounds 3")
+    if ok:
+        if timing == "inside":
+            L += ["rounds 2"]
+        else:
+            L += ["up-recv 0", "send 0 " + hx(b"tail-after"), "up-recv 0", "up-send 0 " + hx(b"srv\x00\xff"), "round"]
+            if timing == "later":
+                L += ["up-close 0", "round", "round"]
+    L.append("stop")
+    return Case(name, L, meta={"kind": "hdr", "mode": mode, "timing": timing, "flags": flags, "flags_late": flags_late, "conn": clabel,
+                               "other": olabel, "req": rlabel, "early": early, "nodate": nodate, "expect_accept": ok})
+
+
+def gen_hdr_cases(ctx, tier):
+    rng = ctx.rng
+    cases = []
+    timings = ("later", "inside", "never")
+    n = len(mk_head() + FOLLOW)
+    i = 0
+
+    def one(flags, ce, oh, rv, late=None):
+        nonlocal i
+        mode = MODES_EXT[i % 2]
+        t = timings[(i // 2) % 3]
+        early = bool((i // 6) % 2)
+        parts = rng.choice([[], [rng.randint(1, n + 20)], [rng.randint(1, n), rng.randint(1, n + 20)]])
+        nm = "hdr-%d-f%d-%s-%s-%s" % (i, flags, ce[0], oh[0], rv[0])
+        cases.append(hdr_case(nm, mode, ARENAS[1 + i % 2], t, flags, bool(i % 3 == 0) if late is None else late, ce, oh, rv, parts, early,
+                              nodate=(i % 5 == 0), rng=rng))
+        i += 1
+    # every Connection edit x every flag combination (request / other headers rotate)
+    for ce in CONN_EDITS:
+        for flags in FLAGS_OK + FLAGS_REFUSED:
+            one(flags, ce, OTHER_HDRS[i % len(OTHER_HDRS)], REQ_VARS[i % len(REQ_VARS)])
+    # every other-header decoration x legal flags x every request variation
+    for oh in OTHER_HDRS:
+        for flags in FLAGS_OK:
+            for rv in REQ_VARS:
+                one(flags, CONN_EDITS[i % 15], oh, rv)
+    # the keep-alive response flag on its own: every request variation x timing x mode x early/late x set early/late
+    for rv in REQ_VARS:
+        for k in range(12):
+            one(8, CONN_EDITS[0], OTHER_HDRS[0], rv, late=bool(k % 2))
+    # random combinations
+    for _ in range(6000 if tier == "thorough" else 400):
+        one(rng.choice(FLAGS_OK + FLAGS_OK + FLAGS_REFUSED), rng.choice(CONN_EDITS), rng.choice(OTHER_HDRS), rng.choice(REQ_VARS))
     return cases
 
 
@@ -363,10 +501,18 @@ def canon_wire(data):
     return out
 
 
+def canon_model_wire(b):
+    """the model's wire text is canonical already; only the Date value of the 101 head is masked like the real one"""
+    i = b.find(b"HTTP/1.1 101 ")
+    e = b.find(b"\r\n\r\n", i) if i >= 0 else -1
+    return b if e < 0 else b[:i] + mask_date(b[i:e + 4]) + b[e + 4:]
+
+
 def canon_harness(ops):
     """harness op outputs -> per connection (event sequence, wire bytes, recv sizes), global sequence"""
     seq, wire, recvs, glob = {}, {}, {}, []
     upgraded, arrived = set(), []
+    objs = {}
 
     def add(c, item):
         seq.setdefault(c, []).append(item)
@@ -421,11 +567,14 @@ def canon_harness(ops):
                 glob.append(t)
             elif t == "tok":
                 glob.append(l)
-    return seq, {c: canon_wire(b) for c, b in wire.items()}, recvs, glob
+            elif t == "resp-obj":
+                objs.setdefault(k["rid"], " ".join(w[2:]))      # the object as built the first time
+    return seq, {c: canon_wire(b) for c, b in wire.items()}, recvs, glob, objs
 
 
 def canon_driver(ops):
     seq, wire, glob = {}, {}, []
+    objs = {}
     for (op, outs) in ops:
         for l in outs:
             w = l.split()
@@ -442,13 +591,73 @@ def canon_driver(ops):
                 glob.append("bad-op " + " ".join(op[:2]))
             elif w[0] in ("tok", "unsupported"):
                 glob.append(l)
-    return seq, wire, glob
+            elif w[0] == "obj":
+                objs[kvs(w)["rid"]] = " ".join(w[2:])
+    return seq, {c: canon_model_wire(b) for c, b in wire.items()}, glob, objs
 
 
 # --------------------------------------------------------------------------- independent oracle
 
 def spec_has_upgrade_token(value):
     return any(t.strip(b" \t").lower() == b"upgrade" for t in value.split(b","))
+
+
+def conn_tokens(v):
+    return [t for t in (x.strip(b" \t") for x in v.split(b",")) if t]
+
+
+def spec_connection_value(upgrade, calls, rets):
+    """the "Connection" value an application ends up with (C04's description of the response API): values are
+    token lists; every accepted add appends its tokens, `keep-alive` tokens are dropped (the daemon decides
+    about them), a `close` token is not accepted on an upgrade response, a delete removes the listed tokens;
+    the value is the tokens joined by ", ".  Returns (value or None, error)."""
+    toks = [b"Upgrade"] if upgrade else []
+    has_close = False
+    for (kind, n, v), ret in zip(calls, rets):
+        if kind not in "hd" or n.lower() != b"connection":
+            continue
+        new = conn_tokens(v)
+        low = [t.lower() for t in new]
+        if kind == "h":
+            keep = [t for t in new if t.lower() not in (b"close", b"keep-alive")]
+            want = not (upgrade and b"close" in low) and (bool(keep) or b"close" in low) and b"\r" not in v and b"\n" not in v
+            if bool(ret) != want:
+                return None, "MHD_add_response_header(Connection, %r) returned %d" % (v, ret)
+            if ret:
+                toks += keep
+                has_close = has_close or b"close" in low
+        else:
+            left = [t for t in toks if t.lower() not in low]
+            closed = has_close and b"close" not in low
+            if bool(ret) != (len(left) != len(toks) or (has_close and not closed)):
+                return None, "MHD_del_response_header(Connection, %r) returned %d" % (v, ret)
+            toks, has_close = left, closed
+    out = ([b"close"] if has_close else []) + toks
+    return (b", ".join(out) if out else None), None
+
+
+def spec_upgrade_head(obj_ents, nodate):
+    """regular expression for exactly the 101 head of a response object whose entries (MHD_get_response_headers) are
+    `obj_ents`: status line, the automatic Date unless suppressed / supplied, the application's headers verbatim and
+    in order — body framing headers are not part of a 1xx reply —, empty line"""
+    hs = [(n, v) for (k, n, v) in obj_ents if k == "H" and n.lower() not in (b"content-length", b"transfer-encoding")]
+    app_date = any(n.lower() == b"date" for n, v in hs)
+    rx = re.escape(b"HTTP/1.1 101 Switching Protocols\r\n")
+    if not nodate and not app_date:
+        rx += rb"Date: [A-Z][a-z]{2}, \d\d [A-Z][a-z]{2} \d{4} \d\d:\d\d:\d\d GMT\r\n"
+    rx += b"".join(re.escape(n + b": " + v + b"\r\n") for n, v in hs) + re.escape(b"\r\n")
+    return rx
+
+
+def parse_obj_line(words):
+    k = kvs(words)
+    rets = [int(x) for x in k.get("rets", "").split(",") if x != ""]
+    ents = []
+    for e in (k.get("ents", "").split(",") if k.get("ents") else []):
+        kind, _, rest = e.partition(":")
+        n, _, v = rest.partition("=")
+        ents.append((kind, unhx(n), unhx(v)))
+    return {"rets": rets, "fa": int(k.get("fa", "0")), "fl": int(k.get("fl", "0")), "ents": ents}
 
 
 def oracle_case(case_lines, hlines, threaded):
@@ -460,6 +669,7 @@ def oracle_case(case_lines, hlines, threaded):
     if len(ops) != len(script):
         return ["harness produced %d op echoes for %d script lines" % (len(ops), len(script))]
     cfg, resps, behs = {}, {}, {}
+    objs = {}
     sent, conn = {}, {}
     stop_seen = [False]
 
@@ -473,8 +683,12 @@ def oracle_case(case_lines, hlines, threaded):
         if o == "cfg":
             cfg = kvs(words)
         elif o == "resp":
-            r = {"kind": "copy", "code": 200, "size": 5, "conn": None, "flags": 0}
+            r = {"kind": "copy", "code": 200, "size": 5, "conn": None, "flags": 0, "calls": []}
             for w in words[2:]:
+                if w[:2] in ("h=", "d=", "f="):
+                    r["calls"].append((w[0],) + tuple(unhx(x) for x in w[2:].split(":")))
+                elif w[:2] == "o=":
+                    r["calls"].append(("o", b"", b""))
                 if w.startswith("kind="):
                     r["kind"] = w[5:]
                     if r["kind"].startswith("upgrade"):
@@ -520,6 +734,8 @@ def oracle_case(case_lines, hlines, threaded):
             t = w[0]
             if t in ("bad-close", "unstable", "protocol-error", "fdset-failed", "start-failed"):
                 err.append("harness reports: " + l)
+            elif t == "resp-obj":
+                objs[int(k["rid"])] = parse_obj_line(w)
             elif t == "conn-start":
                 S(c)["start"] += 1
             elif t == "handler":
@@ -548,6 +764,7 @@ def oracle_case(case_lines, hlines, threaded):
                 x["upg_op"] = i
                 if x["accepted"]:
                     x["upg_r"] = x["accepted"][-1][0]
+                    x["upg_rid"] = x["accepted"][-1][1]
             elif t == "upgrade-sock":
                 if k.get("same") != "1":
                     err.append("c=%d: the socket handed over is not the connection's socket" % c)
@@ -606,6 +823,8 @@ def oracle_case(case_lines, hlines, threaded):
         # accepted upgrade responses must satisfy every precondition
         for (r, rid, code, _u) in x["accepted"]:
             rs = resps.get(rid, {"kind": "copy", "code": 200, "conn": None})
+            if rs["kind"].startswith("upgrade") and rid in objs and "calls" in rs:
+                rs = dict(rs, conn=spec_connection_value(True, rs["calls"], objs[rid]["rets"])[0])
             if rs["kind"].startswith("upgrade"):
                 why = []
                 if cfg.get("upgrade") != "1":
@@ -616,6 +835,8 @@ def oracle_case(case_lines, hlines, threaded):
                     why.append("no upgrade token in the Connection header")
                 if x["ver"].get(r) not in (b"HTTP/1.1",) and not re.match(rb"HTTP/1\.[2-9]$", x["ver"].get(r, b"")):
                     why.append("request version %r" % x["ver"].get(r))
+                if objs.get(rid, {}).get("fl", 0) & 3:
+                    why.append("HTTP/1.0 response flags set (a 1xx status is not allowed then)")
                 if why:
                     err.append("c=%d: upgrade response accepted although: %s" % (c, "; ".join(why)))
             elif code == 101:
@@ -623,7 +844,10 @@ def oracle_case(case_lines, hlines, threaded):
         # the feature must work: a refused upgrade response must violate some precondition
         for (r, rid, code, _u) in x["refused"]:
             rs = resps.get(rid, {"kind": "copy", "code": 200, "conn": None})
+            if rs["kind"].startswith("upgrade") and rid in objs and "calls" in rs:
+                rs = dict(rs, conn=spec_connection_value(True, rs["calls"], objs[rid]["rets"])[0])
             if rs["kind"].startswith("upgrade") and cfg.get("upgrade") == "1" and code == 101 and rs["conn"] is not None \
+                    and not (objs.get(rid, {}).get("fl", 0) & 3) \
                     and spec_has_upgrade_token(rs["conn"]) and not re.search(rb"(^|, )u(p(g(r(a(d)?)?)?)?)?,", rs["conn"].lower()) \
                     and (x["ver"].get(r) == b"HTTP/1.1" or re.match(rb"HTTP/1\.[2-9]$", x["ver"].get(r, b""))):
                 # (values in which a proper prefix of the token precedes a comma are left out: has_token misses those)
@@ -640,7 +864,7 @@ def oracle_case(case_lines, hlines, threaded):
         if x["upgraded"]:
             # (1a) wire = exactly one 101 head (+ what the application wrote itself)
             w = x["wire"]
-            m = re.match(rb"HTTP/1\.1 101 Switching Protocols\r\n((?:[!-~]+: [ -~]*\r\n)+)\r\n", w)
+            m = re.match(rb"HTTP/1\.1 101 Switching Protocols\r\n((?:[!-9;-~]+: [^\r\n]*\r\n)+)\r\n", w)
             if not m:
                 err.append("c=%d: client did not receive a well-formed 101 head" % c)
             else:
@@ -651,6 +875,22 @@ def oracle_case(case_lines, hlines, threaded):
                 cm = re.search(rb"(?:^|\r\n)connection: ([^\r]*)\r\n", hdrs)
                 if not cm or not spec_has_upgrade_token(cm.group(1)):
                     err.append("c=%d: 101 head without Connection: upgrade" % c)
+                # exactly the reply head of the response object the application queued: its headers verbatim and in
+                # order, nothing added by the daemon but the Date (no Keep-Alive / close token, no body framing)
+                ob = objs.get(x.get("upg_rid"))
+                if ob is not None:
+                    if not re.fullmatch(spec_upgrade_head(ob["ents"], cfg.get("nodate") == "1"), head, re.S):
+                        err.append("c=%d: the 101 head on the wire is not the head of the queued response object (wire %r object %r)"
+                                   % (c, head, [(n, v) for (kk, n, v) in ob["ents"] if kk == "H"]))
+                    rs = resps.get(x.get("upg_rid"))
+                    if rs is not None:
+                        want, cerr = spec_connection_value(True, rs["calls"], ob["rets"])
+                        if cerr:
+                            err.append("c=%d: %s" % (c, cerr))
+                        elif cm and cm.group(1) != (want or b"").lower():
+                            err.append("c=%d: Connection value on the wire differs from the application's value (%r, %r)" % (c, cm.group(1), want))
+                if cm and any(tk in (b"close", b"keep-alive") for tk in conn_tokens(cm.group(1))):
+                    err.append("c=%d: 101 head announces close / keep-alive (%r)" % (c, cm.group(1)))
                 if w[len(head):] != x["upsent"]:
                     err.append("c=%d: bytes after the 101 head differ from what the application sent "
                                "(%d vs %d bytes)" % (c, len(w) - len(head), len(x["upsent"])))
@@ -718,6 +958,10 @@ class Spec:
 
     def gen(self, ctx):
         gen_upg()
+        # the 101 head is C04's reply-builder model applied to the response object: its generated constants
+        # (header names, reason phrases, version strings) are regenerated here too (C04's translator, unchanged)
+        import importlib
+        importlib.import_module("props.C04").gen_reply()
 
     def build(self, ctx):
         self.harness = vlib.build_daemon_harness(name="h_upg", src="harness/h_upg.c", ldextra=["-ldl"])
@@ -745,8 +989,8 @@ class Spec:
         dlines = []
         hcanon = []
         for cs, ops in zip(cases, per):
-            seq, wire, recvs, glob = canon_harness(ops)
-            hcanon.append((seq, wire, glob))
+            seq, wire, recvs, glob, hobjs = canon_harness(ops)
+            hcanon.append((seq, wire, glob, hobjs))
             ins = ["rd %d %s" % (c, ",".join(str(x) for x in recvs.get(c, [])) or "-") for c in sorted(cs.hints)]
             # hints go right after `start`
             out = []
@@ -770,12 +1014,20 @@ class Spec:
         for idx, (cs, ops) in enumerate(zip(cases, per)):
             stats["cases"] += 1
             stats["kind:" + cs.meta.get("kind", "?")] = stats.get("kind:" + cs.meta.get("kind", "?"), 0) + 1
+            if cs.meta.get("kind") == "hdr":
+                acc = any(it.startswith("upgrade ") for sq in hcanon[idx][0].values() for it in sq)
+                for key in ("hdr_flags:%d" % cs.meta["flags"], "hdr_conn:" + cs.meta["conn"], "hdr_other:" + cs.meta["other"],
+                            "hdr_req:" + cs.meta["req"], "hdr_outcome:" + ("handed-over" if acc else "refused"),
+                            "hdr_nodate:%d" % int(cs.meta["nodate"])):
+                    stats[key] = stats.get(key, 0) + 1
+                if acc and cs.meta["flags"] & 8:
+                    stats["hdr_keepalive_flag_handed_over"] = stats.get("hdr_keepalive_flag_handed_over", 0) + 1
             flat = ["# " + " ".join(op)] if False else None
             hl = []
             for (op, outs) in ops:
                 hl.append("# " + " ".join(op)); hl += outs
             oerr = oracle_case(cs.lines, hl, cs.relaxed)
-            hseq, hwire, hglob = hcanon[idx]
+            hseq, hwire, hglob, hobjs = hcanon[idx]
             for c, s in hseq.items():
                 for it in s:
                     key = it.split()[0]
@@ -785,7 +1037,7 @@ class Spec:
                             stats.get("extra_len:%d" % (len(it.split("=", 1)[1]) // 2 if not it.endswith("-") else 0), 0) + 1
             derr = None
             if idx < len(mper):
-                mseq, mwire, mglob = canon_driver(mper[idx])
+                mseq, mwire, mglob, mobjs = canon_driver(mper[idx])
                 if "unsupported" in " ".join(mglob):
                     stats["driver_unsupported"] = stats.get("driver_unsupported", 0) + 1
                 elif cs.relaxed and any(g.startswith("bad-op") for g in hglob):
@@ -806,6 +1058,11 @@ class Spec:
                             break
                     if derr is None and [g for g in hglob if not g.startswith("tok")] != [g for g in mglob if not g.startswith("tok")]:
                         derr = "global: code %s model %s" % (hglob[:3], mglob[:3])
+                    # the response objects (call results, flags_auto, flags, header list) as the application built them
+                    for rid, ho in sorted(hobjs.items()):
+                        stats["resp_objects_compared"] = stats.get("resp_objects_compared", 0) + 1
+                        if derr is None and mobjs.get(rid) != ho:
+                            derr = "response object rid=%s: code '%s' model '%s'" % (rid, ho, mobjs.get(rid))
             else:
                 derr = "driver produced no output for this case: " + merr[-300:]
             if oerr:
@@ -848,10 +1105,11 @@ class Spec:
         split = gen_split_cases(ctx, ctx.tier)
         pre = gen_refusal_cases(ctx, ctx.tier)
         multi = gen_multi_cases(ctx, ctx.tier)
+        hdr = gen_hdr_cases(ctx, ctx.tier)
         thr = gen_thr_cases(ctx, ctx.tier) if ctx.tier == "thorough" else []
         if boost:
             split += gen_split_cases(ctx, ctx.tier)
-        cases += pre + multi + split
+        cases += pre + hdr + multi + split
         self.run_tok(ctx.tier, failures, stats)
         # parallel batches
         B = max(50, len(cases) // (vlib.NCPU * 2) + 1)
@@ -880,12 +1138,17 @@ class Spec:
                "exhaustive_subdomains": {"two_way_splits_of_head_plus_40": "all %d positions x {inside,later,never} x {select,epoll} x arenas {1024,4096,32768}" % (stream_len - 1),
                                          "byte_by_byte": "x 3 timings x 2 modes x 3 arenas",
                                          "has_token": "all concatenations of <= %d pieces of %d (%d values)" % (5 if ctx.tier == "thorough" else 4, len(TOK_PIECES), stats.get("tok_values", 0))},
-               "counts": {"split": len(split), "precondition": len(pre), "multi_connection": len(multi), "internal_thread": len(thr), "corpus": ncorp},
+               "counts": {"split": len(split), "precondition": len(pre), "decorated_response": len(hdr), "multi_connection": len(multi), "internal_thread": len(thr), "corpus": ncorp},
                "distribution": {k: v for k, v in sorted(stats.items())},
                "strength": {"MHD_queue_response upgrade checks": "each precondition violated alone + controls, x early/final x modes (bounded-exhaustive)",
                             "execute_upgrade extra data": "exhaustive over 2-way split positions, random 3-way, byte-by-byte",
                             "resume/cleanup/stop": "3 close timings x rounds 0..3 x modes; random multi-connection interleavings (%d)" % len(multi),
-                            "MHD_str_has_token_caseless_": "bounded-exhaustive differential"}}
+                            "MHD_str_has_token_caseless_": "bounded-exhaustive differential",
+                            "101 head = reply builder on the application's response object":
+                                "%d Connection edits x %d response-flag sets (all 4 legal + 5 refused), %d header decorations x 4 legal flag sets x %d "
+                                "request variations, keep-alive flag x request variations x timing x mode; + random combinations; exact head "
+                                "oracle (MHD_get_response_headers entries verbatim) on every hand-over"
+                                % (len(CONN_EDITS), len(FLAGS_OK) + len(FLAGS_REFUSED), len(OTHER_HDRS), len(REQ_VARS))}}
         return failures, cov
 
 
